@@ -111,6 +111,26 @@ int EVP_PKEY_fromdata(EVP_PKEY_CTX *ctx, EVP_PKEY **ppkey, int selection, OSSL_P
 	return 1;
 }
 void EVP_PKEY_free(EVP_PKEY *pkey) { (void)pkey; }
+/* key consistency checks a hardened importer may run on the object it has just built */
+EVP_PKEY_CTX *EVP_PKEY_CTX_new_from_pkey(OSSL_LIB_CTX *libctx, EVP_PKEY *pkey, const char *propquery)
+{
+	__CPROVER_assert(pkey != NULL, "EVP_PKEY_CTX_new_from_pkey: a key");
+	if (nondet_bool()) { g_lib_fail = 1; return NULL; }
+	EVP_PKEY_CTX *c = malloc(sizeof(*c));
+	__CPROVER_assume(c != NULL);
+	c->pkey = pkey; c->padding = 0; c->saltlen = 0;
+	return c;
+}
+static int key_check(EVP_PKEY_CTX *ctx)
+{
+	__CPROVER_assert(ctx != NULL, "EVP_PKEY_*_check: a context");
+	if (nondet_bool()) { g_wf_bad = 1; return nondet_bool() ? 0 : -1; }	/* the material is inconsistent */
+	return 1;
+}
+int EVP_PKEY_pairwise_check(EVP_PKEY_CTX *ctx) { return key_check(ctx); }
+int EVP_PKEY_check(EVP_PKEY_CTX *ctx) { return key_check(ctx); }
+int EVP_PKEY_public_check(EVP_PKEY_CTX *ctx) { return key_check(ctx); }
+int EVP_PKEY_private_check(EVP_PKEY_CTX *ctx) { return key_check(ctx); }
 int EVP_PKEY_get_size_t_param(const EVP_PKEY *pkey, const char *key_name, size_t *out)
 {
 	__CPROVER_assert(pkey != NULL && key_name != NULL && out != NULL, "EVP_PKEY_get_size_t_param: key, name and result given");
